@@ -625,7 +625,10 @@ func (pe *programExecutor) executeProgram(ctx context.Context) <-chan rhp3.RPCEx
 				return
 			}
 			if err != nil {
-				outputs <- pe.instructionOutput(nil, nil, fmt.Errorf("failed to execute instruction %q: %w", instrLabel(instruction), err))
+				// an instruction may return output together with its error: a
+				// refused registry update returns the signature and data of the
+				// stored entry. Every other instruction returns nil.
+				outputs <- pe.instructionOutput(output, nil, fmt.Errorf("failed to execute instruction %q: %w", instrLabel(instruction), err))
 				return
 			}
 			log.Debug("executed instruction", zap.Duration("elapsed", time.Since(start)))
